@@ -799,7 +799,18 @@ def check(tier, seed):
             skipped += 1
             continue
         loaded[ci] = (n, cfg)
-        ob, same_bytes, same_text, is_ext = our_roundtrip(n, conf['restarted'])
+        try:
+            ob, same_bytes, same_text, is_ext = our_roundtrip(n, conf['restarted'])
+        except Exception as exc:  # noqa: BLE001
+            # "the OPEN ExaBGP sends for any configuration decodes back to the same capability set": it must exist first
+            import traceback
+
+            del loaded[ci]
+            rt_bad.append(ci)
+            run.fail_case('our-open-cannot-be-encoded:' + type(exc).__name__,
+                          f'no OPEN can be produced or read back for this configuration: {type(exc).__name__}: {exc}',
+                          {'configuration': conf['text'], 'traceback': traceback.format_exc().splitlines()[-6:]})
+            continue
         ext_ours += is_ext
         if cfg['local_as']:
             ours_cases.append((ci, cfg, list(ob)))
